@@ -825,9 +825,25 @@ def _unify_var(
         return unify(subst[var], t, subst)
     if isinstance(t, ExistentialTypeVar) and t in subst:
         return unify(var, subst[t], subst)
-    if var in t.unsolved_vars:
+    if _occurs(var, t, subst):
         return None
     return {var: t, **subst}
+
+
+def _occurs(var: ExistentialVar, t: Type | Const, subst: "Subst") -> bool:
+    """Occurs check: does `var` occur in `t` once the variables that `subst` already
+    solves are taken into account?"""
+    seen: set[ExistentialVar] = set()
+    todo = list(t.unsolved_vars)
+    while todo:
+        x = todo.pop()
+        if x == var:
+            return True
+        if x not in seen:
+            seen.add(x)
+            if x in subst:
+                todo.extend(subst[x].unsolved_vars)
+    return False
 
 
 def _unify_args(
